@@ -4,6 +4,7 @@ step, then injects / substitutes generated replies towards the client (C06, C12 
 plan entries: {"kind": <query kind or "any">, "k": ordinal of that kind, "n": how many, "mode": "prepend"|"replace",
                "what": "hostile" | "trunc" | "payload", "payload": hex, "downenc": "T"}
 """
+import json
 import random
 import struct
 
@@ -45,6 +46,10 @@ class Mitm(scen.Relay):
         del ids[:-3]
         self.qinfo[(dg.src, m.id)] = {"id": m.id, "labels": labels, "qtype": qt, "kind": kind, "k": k, "anyk": anyk,
                                       "ids": list(ids)}
+
+    def hrng_fixed(self, p, i):
+        """a generator that does not depend on the run's variant: the probe replies are the same in every variant"""
+        return random.Random(p.get("probe_seed", 1) * 1000 + i)
 
     def _raw_variant(self, real, i):
         if i < 6:
@@ -120,7 +125,25 @@ class Mitm(scen.Relay):
         out = []
         what = p.get("what", "hostile")
         for i in range(p.get("n", 1)):
-            if what == "edge":
+            if what == "histx":
+                # history differential (C12): an ignorable but LONG reply (stale id) whose content depends on the run's
+                # variant, then the same test reply in every variant - what the client makes of the second one must
+                # not depend on what the first one left in any of its buffers
+                v = p.get("variant", 0)
+                fill = bytes([[0x68, 0x41, 0xe9, 0x00][v % 4]]) * 3000
+                near = {(q["id"] + kk * 7727) & 0xFFFF for kk in range(-4, 200)} | set(q.get("ids", ()))
+                wid = (q["id"] + 31337) & 0xFFFF
+                while wid in near:
+                    wid = (wid + 1) & 0xFFFF
+                if i == 0:
+                    tq = q["qtype"]
+                    data = proto.build_data_answer(wid, q["labels"], tq, bytes([0x80, 0x00]) + fill,
+                                                   "R" if tq in (D.T_NULL, D.T_PRIVATE, D.T_TXT) else "T")
+                    tag = {"kind": "histfill", "matched": False}
+                else:
+                    rr = self.hrng_fixed(p, i)
+                    tag, data = hostile.hist_probe(rr, q, i)
+            elif what == "edge":
                 tag, data = hostile.edge_reply(self.hrng, q, p.get("size_idx", 0) + i)
             elif what == "hostile" and i % 4 == self.edge_phase:
                 # (in a handshake step only the FIRST reply meets the query it was made for - the client asks again with a
@@ -174,6 +197,9 @@ def client_steps(trace, inst="C0"):
                 cur["outs"].append(("system", e["cmd"]))
             elif ev == "Exit":
                 cur["outs"].append(("exit", e["code"]))
+            elif ev == "CliState":
+                st = e["st"]
+                cur["outs"].append(("state", json.dumps([st.get("in"), st.get("out"), st.get("resent")])))
     return steps
 
 
@@ -189,6 +215,8 @@ def execute(spec):
         w = sess.w
         if spec.get("residue"):
             w.k.cmd("residue %s" % spec["residue"])
+        if spec.get("dump_clients"):
+            w.dump_clients = True
         if spec.get("host"):
             # the tools installed on the client's host (harness/simk.c: host_profile)
             w.k.cmd("hostprofile %d" % spec["host"])
